@@ -152,7 +152,9 @@ BASE_NAMES = [b()["name"] for b in BASES]
 # ---- defects ------------------------------------------------------------
 # group A: at most one of them (all act on file f)
 A_DEFECTS = ["a1-strip-copyright", "a2-strip-licence", "a3-strip-both", "a4-unparseable", "a5-empty-sibling"]
-OTHER_DEFECTS = ["b1-unknown-id", "b2-wrong-case-id", "b3-licenseref-no-text", "b4-remove-used-text",
+LONG_PATH = ("docs/a rather long directory name - with blanks and hyphens in it/second level - also quite long indeed/"
+             "a file name that goes on and on - far beyond eighty columns.txt")
+OTHER_DEFECTS = ["a6-long-path-no-licence", "b1-unknown-id", "b2-wrong-case-id", "b3-licenseref-no-text", "b4-remove-used-text", "b5-two-files-miss-different-texts",
                  "c1-unused-text", "c2-no-extension", "c3-deprecated", "c4-not-an-id", "c5-unused-licenseref", "d1-unreadable"]
 DEFECTS = A_DEFECTS + OTHER_DEFECTS
 
@@ -217,6 +219,14 @@ def apply_defects(proj, defects):
                 raise AssertionError("g has no licence part")
             p["l"][0] = f"{p['l'][0]} AND {ident}" if " " not in p["l"][0] else f"({p['l'][0]}) AND {ident}"
             p["ids"][0] = p["ids"][0] + [ident]
+        elif d == "a6-long-path-no-licence":
+            proj["files"][LONG_PATH] = _f(None, [part("S", ["2016 Long"], [])], body="text\n")
+        elif d == "b5-two-files-miss-different-texts":
+            for role, ident in (("f", "ISC"), ("g", "Zlib")):
+                p = _primary_licence_part(proj["files"][roles[role]])
+                if p is not None:
+                    p["l"][0] = f"{p['l'][0]} AND {ident}" if " " not in p["l"][0] else f"({p['l'][0]}) AND {ident}"
+                    p["ids"][0] = p["ids"][0] + [ident]
         elif d == "b4-remove-used-text":
             proj["licenses"].pop("LICENSES/0BSD.txt")
         elif d == "c1-unused-text":
